@@ -135,10 +135,22 @@ impl ProcessState {
     #[verifier::external_body]
     pub fn env(&self) -> (r: &Env) ensures *r == self.spec_env() { unimplemented!() }
 }
+/// SQLite transaction modes (BEGIN DEFERRED / IMMEDIATE / EXCLUSIVE)
+pub enum TxMode { Deferred, Immediate, Exclusive }
 impl<'a> ProcessTransaction<'a> {
     /// the database as this transaction currently sees it (committed state + its own writes)
     pub uninterp spec fn view(&self) -> Db;
     pub uninterp spec fn spec_env(&self) -> Env;
+    /// C16 typestate: how the transaction was begun, whether it has read, whether it already holds the write lock
+    pub uninterp spec fn tx_mode(&self) -> TxMode;
+    pub uninterp spec fn has_read(&self) -> bool;
+    pub uninterp spec fn has_written(&self) -> bool;
+    /// TRUSTED statement of SQLite's behaviour: a write is safe (waits under the busy timeout instead of failing at once
+    /// with SQLITE_BUSY) if the transaction took the write lock when it began, or already holds it, or has not read yet
+    pub open spec fn can_write(&self) -> bool { self.tx_mode() != TxMode::Deferred || self.has_written() || !self.has_read() }
+    pub open spec fn same_tx(&self, o: &ProcessTransaction) -> bool { self.tx_mode() == o.tx_mode() }
+    pub open spec fn after_read(&self, o: &ProcessTransaction) -> bool { self.tx_mode() == o.tx_mode() && self.has_written() == o.has_written() && self.has_read() }
+    pub open spec fn after_write(&self, o: &ProcessTransaction) -> bool { self.tx_mode() == o.tx_mode() && self.has_written() && self.has_read() == o.has_read() }
     #[verifier::external_body]
     pub fn state(&self) -> (r: &ProcessState) ensures r.spec_env() == self.spec_env() { unimplemented!() }
 }
